@@ -173,6 +173,15 @@ pub fn build(rng: &mut Rng, scale: usize, thorough: bool) -> Vec<Item> {
 		push(&mut v, "wide.json", j.into_bytes());
 		push(&mut v, "wide.yaml", y.into_bytes());
 	}
+	// Large non-ASCII YAML / JSON (multi-byte characters across 8 KiB and
+	// 16 KiB read boundaries at every alignment).
+	for pad in 0..4usize {
+		for ch in ["\u{e9}", "\u{20ac}", "\u{1f600}"] {
+			let text: String = std::iter::repeat(ch).take(40_000 / ch.len()).collect();
+			push(&mut v, "bigtext.yaml", format!("p: \"{}\"\nt: \"{}\"\n", "x".repeat(pad), text).into_bytes());
+			push(&mut v, "bigtext.json", format!("{{\"p\":\"{}\",\"t\":\"{}\"}}\n", "x".repeat(pad), text).into_bytes());
+		}
+	}
 	// Random bytes.
 	for _ in 0..scale {
 		let n = rng.below(24) as usize;
